@@ -27,6 +27,24 @@ open Ruma Ruma.Spec.Auth
 
 abbrev Key := Str × Str
 
+/-- "the current `m.room.third_party_invite` event with `state_key` matching
+`content.third_party_invite.signed.token`" (when `content` contains a `third_party_invite`). -/
+def thirdPartyInviteKey (c : Obj) : Read (List Key) :=
+  match Obj.get c (bs "third_party_invite") with
+  | none => some []
+  | some .null => some []
+  | some tpi =>
+    (signedOf tpi).bind fun signed =>
+    (strProp signed (bs "token")).map fun token => [(bs "m.room.third_party_invite", token)]
+
+/-- "the `m.room.member` event with `state_key` matching `content.join_authorised_via_users_server`"
+(when that property is present). -/
+def authorisingUserKey (c : Obj) : Read (List Key) :=
+  (optUserIdProp c (bs "join_authorised_via_users_server")).map fun via =>
+    match via with
+    | some u => [(bs "m.room.member", u)]
+    | none => []
+
 /-- The part of the selection that is specific to `m.room.member` events. -/
 def memberSelection (v : Nat) (ev : Event) : Read (List Key) :=
   match ev.stateKey with
@@ -37,21 +55,9 @@ def memberSelection (v : Nat) (ev : Event) : Read (List Key) :=
       if membership = bs "join" ∨ membership = bs "invite" ∨ membership = bs "knock"
       then [(bs "m.room.join_rules", [])] else []
     let thirdParty : Read (List Key) :=
-      if membership = bs "invite" then
-        match Obj.get ev.content (bs "third_party_invite") with
-        | none => some []
-        | some .null => some []
-        | some tpi =>
-          (signedOf tpi).bind fun signed =>
-          (strProp signed (bs "token")).map fun token => [(bs "m.room.third_party_invite", token)]
-      else some []
+      if membership = bs "invite" then thirdPartyInviteKey ev.content else some []
     let authorising : Read (List Key) :=
-      if membership = bs "join" ∧ hasRestricted v = true then
-        (optUserIdProp ev.content (bs "join_authorised_via_users_server")).map fun via =>
-          match via with
-          | some u => [(bs "m.room.member", u)]
-          | none => []
-      else some []
+      if membership = bs "join" ∧ hasRestricted v = true then authorisingUserKey ev.content else some []
     thirdParty.bind fun tp => authorising.map fun au =>
       [(bs "m.room.member", target)] ++ joinRules ++ tp ++ au
 
